@@ -24,7 +24,7 @@ RULE = (
     "entity(+unescape), trim, decode.<enc>, and .encode(cs,'htmlentityreplace') for 5 charsets. "
     "non-trivial = a string that at least one filter/handler had to change; distinct = by string."
 )
-RULE += ' added since: decoders held across other decode.<enc> look-ups, and aliased in a module block. thirteen spellings of decode.<enc> (digits, underscores, upper case) as expression filter, def filter, default_filters and buffer_filters.'
+RULE += ' added since: decoders held across other decode.<enc> look-ups, and aliased in a module block. thirteen spellings of decode.<enc> (digits, underscores, upper case) as expression filter, def filter, default_filters and buffer_filters. h(Markup(s)) ahead of h(s).'
 ASSUMPTIONS = [
     "reference decoders: html.entities tables, int() for numeric references, urllib.parse.unquote_plus",
     "exhaustive for single code points and for length<=3 over the stated alphabet; random beyond",
